@@ -67,7 +67,11 @@ func cmdUnit(args []string) int {
 	sort.Strings(keys)
 	for _, k := range keys {
 		sp := db.Funcs[k]
-		if sp.Extern || sp.InlineOnly {
+		if sp.InlineOnly {
+			continue
+		}
+		if sp.Extern && (len(fs.Args()) == 0 || w.ResolveSpecFunc(sp) == nil) {
+			// library contracts are assumptions; those whose function has a body can be verified when named explicitly
 			continue
 		}
 		match := len(fs.Args()) == 0
